@@ -162,6 +162,10 @@ pub enum ScriptOp {
     Commit(usize),
     Rollback(usize),
     Reopen,
+    /// one commit inserting n fresh random keys with values of the given length
+    Fill(usize, usize),
+    /// one commit deleting every committed key
+    DeleteAll,
 }
 
 /// directed histories selectable with `--focus script-…`
@@ -173,6 +177,21 @@ pub fn script_for(focus: &str) -> Option<Vec<ScriptOp>> {
         "script-rollback-multi-segment" => Some(vec![Commit(3), Commit(2), Commit(4), Commit(2), Commit(3), Commit(2), Commit(3), Rollback(5), Commit(2), Rollback(1), Reopen, Rollback(2)]),
         // the log start is pruned past whole segments (maxlog 3), then everything retained is rolled back
         "script-prune-then-rollback-all" => Some(vec![Commit(2), Commit(2), Commit(2), Commit(2), Commit(2), Commit(2), Commit(2), Rollback(3), Reopen, Commit(2), Rollback(1)]),
+        // a free list longer than one page (> 1022 freed leaf pages), then many small commits that drain its head
+        // portion one page at a time across the page boundary, refill it and drain it again
+        "script-freelist-two-pages" => {
+            let mut v = vec![Fill(3300, 1300), DeleteAll];
+            for round in 0..3 {
+                for _ in 0..70 {
+                    v.push(Fill(3, 1300));
+                }
+                if round < 2 {
+                    v.push(DeleteAll);
+                    v.push(Reopen);
+                }
+            }
+            Some(v)
+        }
         _ => None,
     }
 }
@@ -1338,6 +1357,25 @@ impl<'a> Engine<'a> {
                 }
                 ScriptOp::Rollback(n) => self.op_rollback_n(n),
                 ScriptOp::Reopen => self.op_reopen(),
+                ScriptOp::Fill(n, len) => {
+                    let ws: Vec<(Key, Option<Val>)> = (0..n)
+                        .map(|_| {
+                            let k = self.rng.bytes32();
+                            let mut v = gen_value(&mut self.rng, false);
+                            v.resize(len, 0x6b);
+                            (k, Some(v))
+                        })
+                        .collect();
+                    if let Some(fid) = self.session_writes(&[], &ws) {
+                        self.commit_fin(fid, false);
+                    }
+                }
+                ScriptOp::DeleteAll => {
+                    let ws: Vec<(Key, Option<Val>)> = self.committed.keys().map(|k| (*k, None)).collect();
+                    if let Some(fid) = self.session_writes(&[], &ws) {
+                        self.commit_fin(fid, false);
+                    }
+                }
             }
             return;
         }
